@@ -76,18 +76,22 @@ Section Refine.
       exists c. split; [congruence | exact Hin].
   Qed.
 
-  (** cacheCertificate, unlimited capacity: simulated, whatever victim is handed in *)
-  Theorem refine_add l s c v : R 0 l s -> ok c -> R 0 (m_add c l) (add_cert 0 (conc c) v s).
+  (** cacheCertificate while the cache is not at capacity (Capacity 0 = unlimited, or fewer
+      entries than Capacity): simulated, whatever victim is handed in (it is not used) *)
+  Theorem refine_add_below_capacity cap l s c v :
+    R cap l s -> ok c -> at_capacity cap s = false -> R cap (m_add c l) (add_cert cap (conc c) v s).
   Proof.
-    intros HR Hok. pose proof HR as [Hm HI].
+    intros HR Hok Hcap. pose proof HR as [Hm HI].
     split; [|apply add_cert_inv; [exact HI | apply conc_wf; exact Hok]].
-    unfold add_cert, Maintain.Model.cache_add. rewrite (has_id_amem 0 l s (cid c) HR).
+    unfold add_cert, Maintain.Model.cache_add. rewrite (has_id_amem cap l s (cid c) HR).
     change (c_hash (conc c)) with (eh (cid c)).
     destruct (amem (eh (cid c)) (cache s)) eqn:E.
     - apply amem_alookup in E. destruct E as [e He]. rewrite He. cbn [conc c_tags is_nil]. exact Hm.
-    - pose proof E as E'. apply amem_false_alookup in E'. rewrite E'. cbn [at_capacity Nat.ltb Nat.leb andb cache].
+    - pose proof E as E'. apply amem_false_alookup in E'. rewrite E', Hcap. cbn [cache].
       unfold ainsert. rewrite E. rewrite !map_app, Hm. reflexivity.
   Qed.
+  Theorem refine_add l s c v : R 0 l s -> ok c -> R 0 (m_add c l) (add_cert 0 (conc c) v s).
+  Proof. intros HR Hok. apply refine_add_below_capacity; [exact HR | exact Hok | reflexivity]. Qed.
 
   Lemma map_snd_adelete (h : hash) (m : amap cert) :
     (forall k c, In (k, c) m -> c_hash c = k) ->
